@@ -290,7 +290,7 @@ theorem wok_of_good (K : Inflate) {s : Src Bytes} (hg : Good s) (fmt : TileForma
     rw [VtProofs.VersatilesGrid.contains2_iff] at c1
     have hp : 2 ^ L.level ≤ 2 ^ 31 := Nat.pow_le_pow_right (by omega) hb.lvl
     have := hb.xm; have := hb.ym
-    exact ⟨by rw [c2]; exact hb.lvl, by omega, by omega⟩
+    exact ⟨by rw [c2]; exact hb.lvl, by rw [c2]; omega, by rw [c2]; omega⟩
   · show (((levelsOf s).flatMap (streamOf s)).map (·.1)).Nodup
     rw [List.map_flatMap, List.nodup_iff_pairwise_ne, List.pairwise_flatMap]
     constructor
